@@ -71,6 +71,9 @@ func evalCase(h *host, c caseT) (fails []failure, oc string) {
 	if h.out == nil && c.Res == "stmt" {
 		form = "stmt"
 	}
+	if c.Style != "" {
+		form += "/" + c.Style
+	}
 	o := h.run(form, c.Args, ret.V)
 	oc = o.Kind + "/" + strings.TrimPrefix(fmt.Sprintf("%T", o.R), "*data.")
 	describe := func() string {
@@ -98,7 +101,11 @@ func evalCase(h *host, c caseT) (fails []failure, oc string) {
 	}
 	if o.Kind == "throw" {
 		// catchable?
-		t := h.run("try", c.Args, ret.V)
+		tryForm := "try"
+		if c.Style != "" {
+			tryForm += "/" + c.Style
+		}
+		t := h.run(tryForm, c.Args, ret.V)
 		msg, _ := t.Caught.(*data.StringValue)
 		switch {
 		case t.Kind == "panic":
@@ -110,6 +117,11 @@ func evalCase(h *host, c caseT) (fails []failure, oc string) {
 		}
 		if anyErr || anyOpen {
 			return fails, oc + "/rejected"
+		}
+		if c.Style != "" {
+			// another call style may be unsupported for registered functions: only "if the Go
+			// function is entered, it sees the script's values" is demanded of it
+			return fails, "style:" + c.Style + ":refused"
 		}
 		// every argument was representable. A result that has no script representation may be refused.
 		if h.out != nil && h.out.Fam == "int" && !h.out.Signed && ret.V.Uint() > math.MaxInt64 {
@@ -126,6 +138,12 @@ func evalCase(h *host, c caseT) (fails []failure, oc string) {
 			}
 		}
 		return fails, oc + "/accepted-unrepresentable"
+	}
+	if c.Style != "" && o.Called == 0 {
+		return nil, "style:" + c.Style + ":not-entered"
+	}
+	if c.Style != "" {
+		oc = "style:" + c.Style + ":delivered"
 	}
 	if o.Called != 1 || len(o.Got) != n {
 		return []failure{{Mode: "not-called", Pos: -1, Detail: "call reported success but the Go function was not entered exactly once with all arguments\n" + describe()}}, oc
@@ -404,6 +422,31 @@ func findingsFor(c caseT, fails []failure) []finding {
 	}
 	_ = size
 	for _, f := range fails {
+		if c.Style != "" {
+			// the positional call of the same signature and values is enumerated too; a failure that
+			// shows only through another call style is keyed by the style
+			pc := c
+			pc.Style = ""
+			pc.Args = append([]sval{}, c.Args...)
+			same := false
+			if !hasNull(c.Args) {
+				pfs, _ := evalCase(newHost(pc), pc)
+				for _, pf := range pfs {
+					if pf.Mode == f.Mode {
+						same = true
+					}
+				}
+			}
+			if !same {
+				if f.Mode == "panic" {
+					add(fmt.Sprintf("%s via %s: %s", c.Path, c.Style, coarsePanic(f.Panic)), "no-crash", f, c)
+				} else {
+					// one key per path: the style and the way it differs are in the case / detail
+					add(c.Path+" non-positional call (spread / named / callback): Go does not see the values a positional call delivers", "param-identity", f, c)
+				}
+			}
+			continue
+		}
 		switch f.Mode {
 		case "panic":
 			add(c.Path+" "+coarsePanic(f.Panic), "no-crash", f, c)
@@ -493,6 +536,15 @@ func coarsePanic(p string) string {
 	return p
 }
 
+func hasNull(a []sval) bool {
+	for _, v := range a {
+		if v.T == "null" {
+			return true
+		}
+	}
+	return false
+}
+
 func sigOnly(c caseT) string { return "(" + strings.Join(c.In, ",") + ")" + c.Out }
 
 func btoi(b bool) int {
@@ -569,6 +621,7 @@ type shardArg struct {
 	Prefix []string `json:"prefix"` // fixed leading parameter kinds
 	Arity  int      `json:"arity"`
 	NKinds int      `json:"nkinds"` // kinds allowed at the free positions (first n of `kinds`)
+	Style  string   `json:"style,omitempty"`
 }
 
 type rec struct {
@@ -578,6 +631,13 @@ type rec struct {
 	Outcome map[string]int `json:"outcome,omitempty"`
 	F       *finding       `json:"f,omitempty"`
 	Sample  any            `json:"sample,omitempty"`
+	// concurrent part
+	Key    string        `json:"key,omitempty"`
+	Clause string        `json:"clause,omitempty"`
+	Size   int           `json:"size,omitempty"`
+	Detail string        `json:"detail,omitempty"`
+	CaseC  *concScenario `json:"casec,omitempty"`
+	Execs  int64         `json:"execs,omitempty"`
 }
 
 func outNames() []string {
@@ -594,8 +654,9 @@ func worker(w *pool.W, raw json.RawMessage) {
 	var sigs, calls int64
 	outcomes := map[string]int{}
 	emitted := map[string]int{}
+	style := sh.Style
 	runSig := func(path string, in []string, out string) {
-		c0 := caseT{Path: path, In: in, Out: out}
+		c0 := caseT{Path: path, In: in, Out: out, Style: style}
 		if !w.Item(c0.sigString()) {
 			return
 		}
@@ -616,8 +677,19 @@ func worker(w *pool.W, raw json.RawMessage) {
 			ok = kindByName(out)
 		}
 		first := true
+		if style != "" {
+			if _, _, ok := h.callExpr(style); !ok {
+				sigs--
+				return
+			}
+		}
 		tuples(ik, ok, func(args []sval, res string) {
-			c := caseT{Path: path, In: in, Out: out, Args: args, Res: res}
+			if style == "named-tail" {
+				for i := 0; i < len(args)-1; i++ {
+					args[i] = sval{T: "null", C: "omitted"}
+				}
+			}
+			c := caseT{Path: path, In: in, Out: out, Args: args, Res: res, Style: style}
 			fs, oc := evalCase(h, c)
 			calls++
 			outcomes[oc]++
@@ -660,6 +732,38 @@ func worker(w *pool.W, raw json.RawMessage) {
 				}
 			}
 		}
+	case "method-styles":
+		for _, st := range callStyles {
+			style = st
+			for i := 0; i < nCore; i++ {
+				for j := 0; j < nCore; j++ {
+					runSig("method", []string{kinds[i].Name}, kinds[j].Name)
+				}
+			}
+			for _, ms := range multiSigs {
+				runSig("method", ms[:len(ms)-1], ms[len(ms)-1])
+			}
+		}
+	case "func-styles":
+		in := make([]string, sh.Arity)
+		copy(in, sh.Prefix)
+		var rec_ func(i int)
+		rec_ = func(i int) {
+			if i == sh.Arity {
+				for _, st := range callStyles {
+					style = st
+					for j := 0; j < nCore; j++ {
+						runSig("func", append([]string{}, in...), kinds[j].Name)
+					}
+				}
+				return
+			}
+			for k := 0; k < nCore; k++ {
+				in[i] = kinds[k].Name
+				rec_(i + 1)
+			}
+		}
+		rec_(len(sh.Prefix))
 	case "method":
 		for _, o := range outNames() {
 			runSig("method", nil, o)
@@ -841,7 +945,7 @@ func main() {
 		return
 	}
 	if pool.IsWorker() {
-		pool.Serve(map[string]pool.Handler{"c17": worker, "seq": seqWorker})
+		pool.Serve(map[string]pool.Handler{"c17": worker, "seq": seqWorker, "conc": concWorker})
 	}
 	c := ev.New("C17")
 	defer runner.Cleanup()
@@ -870,12 +974,25 @@ func main() {
 	add(shardArg{Path: "func", Arity: 0, NKinds: all})
 	add(shardArg{Path: "method"})
 	add(shardArg{Path: "convert"})
+	// other call styles (spread, named, call_user_func, array_map, closure, variable function):
+	// arity 1..3 over the documented kinds
+	for ar := 1; ar <= 3; ar++ {
+		for a := 0; a < nCore; a++ {
+			add(shardArg{Path: "func-styles", Prefix: []string{kinds[a].Name}, Arity: ar, NKinds: nCore})
+		}
+	}
+	add(shardArg{Path: "method-styles"})
+	c.Set("call_styles", callStyles)
 	for _, d := range sequences() {
 		shards = append(shards, pool.Shard{Kind: "seq", Arg: d})
 	}
 	c.Set("order_sequences", len(sequences()))
+	for i := range concScenarios() {
+		shards = append(shards, pool.Shard{Kind: "conc", Arg: i})
+	}
+	c.Set("concurrent_scenarios", len(concScenarios()))
 
-	var sigs, calls int64
+	var sigs, calls, interleavings int64
 	outcomes := map[string]int{}
 	pool.Run(shards, pool.Options{}, func(si int, rb json.RawMessage) {
 		var r rec
@@ -884,9 +1001,12 @@ func main() {
 		case "count":
 			sigs += r.Sigs
 			calls += r.Calls
+			interleavings += r.Execs
 			for k, v := range r.Outcome {
 				outcomes[k] += v
 			}
+		case "failc":
+			c.Fail(r.Key, r.Clause, r.Size, r.CaseC, r.Detail)
 		case "fail":
 			c.Fail(r.F.Key, r.F.Clause, r.F.Size, r.F.Case, r.F.Detail)
 		case "sample":
@@ -907,6 +1027,7 @@ func main() {
 	}
 	c.Set("outcome_call_counts", outcomes)
 	c.Set("signatures", sigs)
+	c.Set("concurrent_interleavings", interleavings)
 	c.Set("calls", calls)
 	c.Set("kinds", outNames()[:all])
 	c.Set("arity3_kinds", n3)
@@ -934,6 +1055,14 @@ func main() {
 }
 
 func replay(c *ev.Check) {
+	var kind struct {
+		Kind string `json:"kind"`
+	}
+	if k, err := ev.LoadReplay(c.Replay, &kind); err == nil && kind.Kind == "conc" {
+		replayConc(c, k)
+		c.Finish(1, 1, 1, "replay")
+		return
+	}
 	var cs caseT
 	key, err := ev.LoadReplay(c.Replay, &cs)
 	if err != nil {
